@@ -3,6 +3,21 @@
 
 package utils
 
+import (
+	"runtime"
+	"strings"
+)
+
+// EscapeGlob escapes the characters filepath.Glob would interpret, so that a directory name
+// can be used literally as the leading part of a pattern (a checkout may live in `crs[fork]`).
+// Windows patterns have no escape character: the path is returned unchanged there.
+func EscapeGlob(path string) string {
+	if runtime.GOOS == "windows" {
+		return path
+	}
+	return strings.NewReplacer(`\`, `\\`, `*`, `\*`, `?`, `\?`, `[`, `\[`).Replace(path)
+}
+
 func IsEscaped(input string, position int) bool {
 	escapeCounter := 0
 	for backtrackIndex := position - 1; backtrackIndex >= 0; backtrackIndex-- {
